@@ -315,6 +315,9 @@ def run(ctx: common.Ctx):
     # (Props/C08Graph.lean: getitemGraph_eval, getitem_slices_nd, exported_slices_graph_correct)
     from .. import tgraph
     tgraph.run_getitem(ctx, cases)
+    # boolean-mask selection at graph level: Reshape + Compress (Model/TGraphScatter.maskGraph; Props/C08MaskGraph.lean)
+    from .. import scattertie
+    scattertie.run(ctx, 60 if ctx.tier == "quick" else 1500, label="mask", kinds=("mask",))
 
 
 def nontrivial(idx):
